@@ -25,12 +25,15 @@ types_manifest.json["errors"] and its definition is emitted as a placeholder tha
 theorems fail -- a broken obligation, never silently skipped.
 """
 import re, sys, json, os
+import sys as _sys, os as _os
+_sys.path.insert(0, _os.path.dirname(_os.path.abspath(__file__)))
+from rustexpr import blank_comments as rx_blank, TranslationError as rx_TranslationError, tokenize as rx_tokenize, P as rx_P, fold as rx_fold
 
 REPO = os.environ.get('VERIF_REPO', '/repo')
 OUT = sys.argv[1] if len(sys.argv) > 1 else os.path.join(os.path.dirname(__file__), '..', 'lean', 'Dasp', 'Gen')
 src_path = os.path.join(REPO, 'dasp_sample/src/types.rs')
 src = open(src_path).read()
-src_nc = re.sub(r'//[^\n]*', lambda m: ' ' * len(m.group(0)), src)   # offsets and lines survive
+src_nc = rx_blank(src)   # offsets and lines survive
 
 errors = []
 functions = {}
@@ -409,9 +412,14 @@ for m in re.finditer(r'pub mod (\w+)\s*\{', tail):
             err('instantiation in mod ' + m.group(1), off, 'arguments not recognised', argt); continue
         T, rep = mm.group(1), mm.group(2)
         try:
-            nums = [int(mm.group(i).strip().replace('_', '')) for i in (3, 4, 5, 6)]
-        except ValueError:
-            err(T, off, 'eq/min/max/total are not integer literals', argt); continue
+            # integer constant expressions: a literal's spelling (`8_388_608`, `0x80_0000`, `1 << 23`, `(1 << 24) - 1`) is not semantics
+            nums = []
+            for i in (3, 4, 5, 6):
+                ce = rx_fold(rx_P(rx_tokenize(mm.group(i))).expr())
+                if ce[0] != 'lit' or '.' in ce[1]: raise ValueError(mm.group(i))
+                nums.append(int(ce[1]))
+        except (ValueError, rx_TranslationError):
+            err(T, off, 'eq/min/max/total are not integer constant expressions', argt); continue
         if rep not in PRIMS: err(T, off, 'backing type %s is not a primitive integer' % rep, argt); continue
         fp, fc = [], []
         for item in [x.strip() for x in mm.group(7).split(',') if x.strip()]:
